@@ -10,7 +10,7 @@ import (
 // Aspiration-level series: reference model of DESIGN.md A.7 and request encoding.
 
 type levelSpec struct {
-	Fn       string               // thresholds | idealMultipliedCoefficient | idealAdditiveCoefficient | idealSubtractiveCoefficient
+	Fn       string // thresholds | idealMultipliedCoefficient | idealAdditiveCoefficient | idealSubtractiveCoefficient
 	Coef     float64
 	Min, Max float64
 	Explicit []map[string]float64 // for Fn == thresholds
